@@ -51,6 +51,19 @@ CHECKS = {
             "TLC model of the lexer with exhaustive conformance on short strings",
             "exploration over texts (no proof over all texts); seed corpus = cfg_samples, docs, parser tests; 12-symbol lexer alphabet; "
             "3 s watchdog per text; dev-profile build"),
+    "C07": ("model_checking",
+            "Part 1: TLC checks the invariant IdleTickIsStutter (where can_block holds a tick emits nothing and is a stutter on everything "
+            "that can influence the future) on L1 instances, one per time-driven field of is_idle / can_block, every transition replayed "
+            "on the code. Part 2 (decisive): kverif paired cuts histories wherever the REAL can_block_update_idle_waiting returned true and "
+            "records lane A = K ticks + continuation vs lane B = continuation (K in {1,2,7,Tmax+1,1000,12000}) and whole histories through "
+            "the blocking vs the ticking stepper; TLC judges every recorded pair with P_C07!PairErr (silent gap, decision kept, equal OS "
+            "events at equal offsets) on TLC-generated prefixes, random histories, hand-written feature configurations outside L1 (zippy, "
+            "defseq, caps-word, mouse, chords v2, dynamic macros) and cfggen configurations. Part 3: TLC checks spec/Loop.tla (the processing "
+            "thread: blocked only when idle, every received event followed by a tick, no event lost, on-idle not postponed) and the real "
+            "start_processing_loop thread is compared with the stepper on time-insensitive configurations.",
+            "5 C07", "TLC invariant on L1 + TLC validation of paired blocking/ticking runs recorded from the real code + TLC model of the loop",
+            "model_checking for parts 1-2 within the instance bounds (2-3 keys, <=2 pending events, timeouts 2-6); part 3 is exploration "
+            "(real thread, real time, event order only); gaps only from the K set; TCP-thread virtual-key operations while blocked not covered"),
     "C08": ("model_checking",
             "TLC enumerates the macro-body grammar and compares the real parser's SequenceEvent list of every body with "
             "P_C08!MacroExpand (written from the docs); TLC checks L1 against the macro monitor P_C08 (exact step order per "
@@ -120,6 +133,21 @@ CHECKS = {
             BOUNDS + "; 1-3 virtual keys (key / layer-while-held / macro), D in {2,3}; is_idle() taken as the idle signal; sequence trigger "
             "and 8-key trigger-equivalence by recorded traces only; TCP socket not exercised; toggles issued while the key's state is in "
             "flight are a recorded finding and pruned from the quick instances"),
+    "C15": ("fault_enumeration",
+            "TLC explores spec/Reload.tla (two instances of the detailed model - old and new configuration, constants from the real "
+            "parser - under one running state; the deferred reload with exactly do_live_reload's assigned/retained fields; file index "
+            "selection) composed with three lanes and the relational monitor P_C15 for every history within the bounds and every fault "
+            "kind (valid other/same content, post-parse step fails, two syntax errors, three refusals, missing, unreadable) at every "
+            "reload attempt; every transition is replayed on the real code through the deterministic loop stepper (hooks) with fault "
+            "injection on temp files; (request state, fault kind, continuation) triples from that graph, scripted retained-state "
+            "scenarios and random histories run as lane A (requests), B (request keys neutralised = no reload requested) and C (fresh "
+            "instance of the loaded file fed the same inputs since the reload, compared from the first common idle point) on the real "
+            "code; TLC validates the recorded lane triples against P_C15 (F1 failed reload = no request, F2 when/how a successful "
+            "reload is applied + notifications + equals a restart, F3 lrld/next/prev/num index selection).",
+            "5 C15", "TLC exploration of the reload model + edge-cover replay with fault injection + TLC validation of recorded relational lanes",
+            "2-3 keys + request keys, <=2 pending events, <=6 inputs before / <=4 after an attempt, <=2-3 attempts per history; 1 ms per "
+            "loop iteration via kanata_verif hooks; xset made unavailable; no dynamic-macro recording, clipboard slots, lrld-file; "
+            "MAPPED_KEYS and device options not observable; the real blocking loop thread is not exercised"),
     "C16": ("translation_validation",
             "spec/CfgLang.tla defines s-expression trees, Norm (documented semantics of include, platform, templates, variables, "
             "aliases, deflayermap) and the abstraction steps as actions; TLC explores every step at every site and compositions of "
